@@ -952,3 +952,26 @@ func ruleReloadIsUnconditional(c *eng.Ctx) {
 	w := q.Find()
 	c.Check(w == nil, "every SIGHUP reloads the policy", c.P.Pos(fn.Pos()), "from the SIGHUP case every path to the next signal passes LoadPolicy", "handleSignals can skip the reload for a SIGHUP ("+w.String()+"): a state of the policy file — an emptied one is how the last permissions are revoked — leaves everybody who was authorised authorised")
 }
+
+// ruleRebuiltIndexStartsEmpty (R05.8 extension): an index is rebuilt into a file that holds nothing of the old index — the
+// file is removed (or cut to nothing) and created anew before the first rebuilt entry is written. Entries of the old index
+// that lie behind the rebuilt ones would otherwise survive: after a crash between the two renames of Replace the replacement's
+// log is shorter than the old index, and recovery would report messages that are gone.
+func ruleRebuiltIndexStartsEmpty(c *eng.Ctx) {
+	fn := c.Fn(cl + "(*segment).rebuildIndex")
+	if fn == nil {
+		return
+	}
+	ws := eng.CallsIn(fn, cl+"index.writeEntries", cl+"index.writeEntry", cl+"index.writeAt")
+	if len(ws) == 0 {
+		c.Unresolved("the index writes of segment.rebuildIndex")
+		return
+	}
+	emptied := eng.IsCallTo("os.Remove", "os.File.Truncate", "os.Truncate")
+	created := eng.IsCallTo(cl + "newIndex")
+	for _, w := range ws {
+		ok1, w1 := eng.PrecededBy(fn, w.(ssa.Instruction), emptied)
+		ok2, _ := eng.PrecededBy(fn, w.(ssa.Instruction), created)
+		c.Check(ok1 && ok2, "the index is rebuilt into an empty file", c.Pos(w.(ssa.Instruction)), "os.Remove(indexPath) and newIndex(…) on every path to the first rebuilt entry", "rebuildIndex writes rebuilt entries into an index file that was not emptied first ("+w1.String()+"): entries of the old index behind the rebuilt ones survive, so after a crash between the two renames of segment.Replace the recovered segment reports messages its log no longer holds")
+	}
+}
